@@ -41,7 +41,16 @@ func (fv *FV) addObl(st *State, kind, name, goal, src string, tags []string) {
 }
 
 func (fv *FV) safety(st *State, what, at, goal string) {
-	if !fv.fc.HasSafety && !fv.eng.allSafety {
+	claimed := fv.fc.HasSafety
+	if claimed && len(fv.fc.SafetyKinds) > 0 {
+		claimed = false
+		for _, k := range fv.fc.SafetyKinds {
+			if k == what {
+				claimed = true
+			}
+		}
+	}
+	if !claimed && !fv.eng.allSafety {
 		// still assume so later obligations are not polluted
 		st.assume(goal)
 		return
